@@ -1088,6 +1088,67 @@ theorem wreach_client {env : Env} {U : Header → Prop} {w : World} (hw : WReach
   | restart _ ih => intro i s h; exact ih i s h
   | discarded now i c _ ih => intro j s h; rw [discarded_identity] at h; exact ih j s h
 
+/-! ### create / upgrade / toggle proposals: the index invariant of the prune proof, whatever the redundant fields say -/
+
+/-- the redundant `ConsensusState.Height` of the proposal plays no role -/
+theorem upgradeState_height_irrelevant (env : Env) (s : State) (ci tr : Nat) (h : Header) (ch ch' : Option (Nat × Nat)) :
+    upgradeState env s ci tr h ch = upgradeState env s ci tr h ch' := rfl
+
+/-- **upgrade_index_consistent**: after an upgrade the two index facts the prune theorem relies on (`Core.key`: header-index
+    keys are (hash, HEADER height); `InvP.rm`: the root-main entry of every header at or above the prune line is keyed by the
+    header's own (root, height) and points at it) still hold, the new head is indexed under its own height and carries its own
+    consensus state — whatever `Height` the proposal's consensus state had -/
+theorem upgrade_index_consistent {env : Env} {U : Header → Prop} (hU : UOkP env U) {s : State} {P : Nat}
+    (hk : ∀ k h', aget s.hdr k = some h' → k = hkey env h' ∧ U h')
+    (hrm : ∀ k h', aget s.hdr k = some h' → P ≤ h'.number → aget s.rootMain (h'.root, h'.number) = some (hkey env h'))
+    {h : Header} (uh : U h) (ci tr : Nat) (ch : Option (Nat × Nat)) :
+    (∀ k h', aget (upgradeState env s ci tr h ch).hdr k = some h' → k = hkey env h' ∧ U h') ∧
+    (∀ k h', aget (upgradeState env s ci tr h ch).hdr k = some h' → P ≤ h'.number →
+        aget (upgradeState env s ci tr h ch).rootMain (h'.root, h'.number) = some (hkey env h')) ∧
+    aget (upgradeState env s ci tr h ch).hdr (hkey env h) = some h ∧
+    aget (upgradeState env s ci tr h ch).rootMain (h.root, h.number) = some (hkey env h) ∧
+    aget (upgradeState env s ci tr h ch).cons h.number = some (consOf h) ∧ (upgradeState env s ci tr h ch).head = h := by
+  have hh : ∀ k, aget (upgradeState env s ci tr h ch).hdr k = if k = hkey env h then some h else aget s.hdr k := fun k => store_hdr s h k
+  have hr : ∀ k, aget (upgradeState env s ci tr h ch).rootMain k = if k = (h.root, h.number) then some (hkey env h) else aget s.rootMain k := by
+    intro k; show aget (aset s.rootMain (h.root, h.number) (hkey env h)) k = _; exact aget_aset _ _ _ _
+  have hkey2 : ∀ k h', aget (upgradeState env s ci tr h ch).hdr k = some h' → k = hkey env h' ∧ U h' := by
+    intro k h' hg
+    rw [hh] at hg
+    by_cases e : k = hkey env h
+    · simp [e] at hg; subst hg; exact ⟨e, uh⟩
+    · simp [e] at hg; exact hk _ _ hg
+  refine ⟨hkey2, ?_, by rw [hh]; simp, by rw [hr]; simp, ?_, rfl⟩
+  · intro k h' hg hP
+    rw [hr]
+    by_cases e : (h'.root, h'.number) = (h.root, h.number)
+    · simp only [Prod.mk.injEq] at e
+      have : h' = h := hU.rootSep _ _ (hkey2 k h' hg).2 uh e.2 e.1
+      simp [this]
+    · simp only [e, ↓reduceIte]
+      rw [hh] at hg
+      by_cases e2 : k = hkey env h
+      · simp [e2] at hg; subst hg; simp at e
+      · simp [e2] at hg; exact hrm k h' hg hP
+  · show aget (aset _ h.number _) h.number = _
+    simp [aget_aset_self, consOf]
+
+/-- creation and toggle (store cleared, then `Initialize` + keeper writes) establish the full invariant of the prune proof -/
+theorem create_invP {env : Env} {U : Header → Prop} (hU : UOkP env U) {g : Header} (ug : U g) {ci tr : Nat} {s : State}
+    (h : createClient env ci tr g = .ok s) : InvP env U g.number s g.number [] := by
+  unfold createClient at h
+  split at h
+  · cases h
+  · split at h
+    · cases h
+    · cases h; exact init_invP hU ug ci tr
+
+theorem toggle_invP {env : Env} {U : Header → Prop} (hU : UOkP env U) {g : Header} (ug : U g) {other : Bool} {ci tr : Nat}
+    {ch : Option (Nat × Nat)} {s : State} (h : toggleClient env other ci tr g ch = .ok s) : InvP env U g.number s g.number [] := by
+  unfold toggleClient at h
+  split at h
+  · cases h
+  · exact create_invP hU ug h
+
 /-! ### concrete witness: a fork below the prune line is rejected although its parent is still in the index -/
 
 set_option maxRecDepth 100000
